@@ -68,12 +68,12 @@ theorem QD_rel (g : Guards) : DRel (QD g) where
     simpa using b.1 c
 
 /-- a step that emits nothing and keeps `suspended` and `plan` of every connection -/
-theorem QD_silent (g : Guards) {d d' : Daemon} (h : ∀ c, (d'.conn c).suspended = (d.conn c).suspended ∧ (d'.conn c).plan = (d.conn c).plan) :
+theorem QD_silent (g : Guards) {d d' : Daemon} (h : ∀ c, (d'.conn c).suspended = (d.conn c).suspended ∧ (d'.conn c).script = (d.conn c).script) :
     QD g d [] d' := by
   intro hd
   refine ⟨fun c => by simp [quietFrom, (h c).1], fun c => ?_⟩
   have := hd c
-  unfold RdOK Conn.chunkedReply at *
+  unfold RdOK at *
   rw [(h c).2]; exact this
 
 def clearDres (k : Conn) : Conn := { k with dres := false }
@@ -107,7 +107,7 @@ namespace Mhd.Susp
 /-- a step that changes the record of one connection `a` and emits `evs` for it -/
 theorem QD_one (g : Guards) (d d' : Daemon) (a : Nat) (k' : Conn) (evs : List CEv)
     (hconn : d'.conn = setConn d.conn a k')
-    (hq : quietFrom (d.conn a).suspended evs = some k'.suspended) (hp : k'.plan = (d.conn a).plan) :
+    (hq : quietFrom (d.conn a).suspended evs = some k'.suspended) (hp : k'.script = (d.conn a).script) :
     QD g d (tag a evs) d' := by
   intro hd
   refine ⟨fun c => ?_, fun c => ?_⟩
@@ -119,7 +119,7 @@ theorem QD_one (g : Guards) (d d' : Daemon) (a : Nat) (k' : Conn) (evs : List CE
     by_cases hc : c = a
     · subst hc
       have := hd c
-      unfold RdOK Conn.chunkedReply at *
+      unfold RdOK at *
       simp only [setConn_same]; rw [hp]; exact this
     · rw [setConn_ne _ _ hc]; exact hd c
 
@@ -203,7 +203,7 @@ theorem QRP_callHandlers (g : Guards) (hg : g.Sound) (ep rr wr : Bool) :
   obtain ⟨h1, _, _, h4, h5, _, h7, h8⟩ := hg
   exact sat_callHandlers (QRP_rel g) (g := g) (ep := ep)
     (fun k _ => ⟨QR_handleRead g h4 k, Fr_handleRead g k⟩)
-    (fun k hk => ⟨QR_handleWrite g h5 k hk, Fr_handleWrite g h8 k⟩)
+    (fun k hk => ⟨QR_handleWrite g h5 k hk.cur, Fr_handleWrite g h8 k⟩)
     (fun k _ => ⟨QR_handleIdle g h1 h7 ep k, Fr_handleIdle g h8 ep k⟩) rr wr
 
 theorem QRP_handleIdle (g : Guards) (hg : g.Sound) (ep : Bool) : Sat (QRP g) (handleIdle g ep) := by
@@ -242,7 +242,7 @@ theorem QD_travAll (g : Guards) (hg : g.Sound) (fr fw rd wr : Nat → Bool) :
 
 theorem epollMark_susp (k : Conn) (i o : Bool) : (epollMark k i o).suspended = k.suspended := by
   cases i <;> cases o <;> rfl
-theorem epollMark_plan (k : Conn) (i o : Bool) : (epollMark k i o).plan = k.plan := by
+theorem epollMark_plan (k : Conn) (i o : Bool) : (epollMark k i o).script = k.script := by
   cases i <;> cases o <;> rfl
 
 theorem QD_epollEvents (g : Guards) : ∀ (l : List (Nat × Bool × Bool)) (d : Daemon), QD g d [] (epollEvents l d) := by
@@ -363,7 +363,7 @@ theorem WFD_rel : DRel WFD where
   refl := fun _ h => h
   trans := fun _ _ _ _ _ h1 h2 h => h2 (h1 h)
 
-theorem WF_init (m : Mode) (plans : Nat → Plan) : WF (Daemon.init m plans) := by
+theorem WF_init (m : Mode) (plans : Nat → Plan) (later : Nat → List Plan := fun _ => []) : WF (Daemon.init m plans later) := by
   constructor <;> simp [Daemon.init]
 
 /-- updating fields of one record that the invariant does not look at -/
